@@ -35,6 +35,12 @@ type varInfo struct {
 	T   Type
 	Dyn bool // certainly not a compile-time constant
 	RO  bool // never assigned (parameters)
+	// WO marks a named result that has not been assigned on every path
+	// yet: the compiler does not zero-initialise named results (reading
+	// one before its first assignment yields an undefined value) and no
+	// annotated test program reads one early, so the generator does not
+	// either.
+	WO bool
 }
 
 type scope map[string]*varInfo
@@ -56,6 +62,7 @@ type gctx struct {
 	budget int
 	ifDepth int
 	pending []*Stmt // statements that must directly follow the last one
+	wantWO  bool    // visible() includes write-only named results
 }
 
 func (g *gctx) intn(lo, hi int, label string) int {
@@ -107,6 +114,9 @@ func (g *gctx) visible() []named {
 		for _, n := range names {
 			if !seen[n] {
 				seen[n] = true
+				if g.scopes[i][n].WO && !g.wantWO {
+					continue
+				}
 				res = append(res, named{n, g.scopes[i][n]})
 			}
 		}
@@ -263,6 +273,24 @@ func (g *gctx) leaf(T Type, needDyn bool) (*Expr, bool) {
 			cands = append(cands, cand{&Expr{Op: EVar, T: T, Name: nv.name}, nv.v.Dyn})
 		case nv.v.T.K == KArray && nv.v.T.E.Equal(T):
 			av := &Expr{Op: EVar, T: nv.v.T, Name: nv.name}
+			if n := nv.v.T.N; g.o.DynIndex && (n == 2 || n == 4 || n == 8) && g.chance(40, "dynidx") {
+				// Input-dependent index, masked into range:
+				// arr[x & (len-1)] with x of a type that can
+				// hold the mask as a non-negative constant.
+				var U *Type
+				for i := range g.pool {
+					if g.pool[i].N >= 4 {
+						U = &g.pool[i]
+						break
+					}
+				}
+				if U != nil {
+					idx := &Expr{Op: EBin, T: *U, Name: "&", A: []*Expr{g.dynSource(*U),
+						{Op: ELit, T: *U, Val: fmt.Sprint(n - 1)}}}
+					cands = append(cands, cand{&Expr{Op: EDynIndex, T: T, A: []*Expr{av, idx}}, false})
+					continue
+				}
+			}
 			if len(g.loops) > 0 && g.loops[len(g.loops)-1].count <= nv.v.T.N && g.chance(60, "idxloop") {
 				cands = append(cands, cand{&Expr{Op: EIndex, T: T,
 					Name: g.loops[len(g.loops)-1].name, A: []*Expr{av}}, false})
@@ -498,7 +526,10 @@ func (g *gctx) newName() string {
 
 func (g *gctx) assignable(pred func(Type) bool) []named {
 	var res []named
-	for _, nv := range g.visible() {
+	g.wantWO = true
+	vis := g.visible()
+	g.wantWO = false
+	for _, nv := range vis {
 		if !nv.v.RO && pred(nv.v.T) {
 			res = append(res, nv)
 		}
@@ -564,9 +595,17 @@ func (g *gctx) stmt() (*Stmt, bool) {
 		}
 		e, dyn := g.rhs(nv.v.T)
 		nv.v.Dyn = dyn
+		if nv.v.WO && g.ifDepth%100 == 0 && len(g.loops) == 0 {
+			nv.v.WO = false // assigned on every path from here on
+		}
 		return &Stmt{K: SAssign, Name: nv.name, E: e}, false
 	case k < 56: // op-assign
-		c := g.assignable(func(t Type) bool { return t.IsInt() })
+		var c []named
+		for _, nv := range g.assignable(func(t Type) bool { return t.IsInt() }) {
+			if !nv.v.WO {
+				c = append(c, nv)
+			}
+		}
 		if len(c) == 0 {
 			return g.stmt()
 		}
@@ -919,6 +958,9 @@ func (g *gctx) mirror(list []*Stmt, local map[string]bool) []*Stmt {
 // returnable tells whether a return statement can be generated here (array
 // and struct results need a variable of that type in scope).
 func (g *gctx) returnable() bool {
+	if len(g.fn.ResultNames) > 0 {
+		return false
+	}
 	for _, r := range g.fn.Results {
 		if isScalar(r) {
 			continue
@@ -956,6 +998,10 @@ func (g *gctx) function(f *Func, stmts int) {
 			f.Body = append(f.Body, &Stmt{K: SVar, Name: name, T: &T})
 		}
 	}
+	for i, n := range f.ResultNames {
+		// Named results: zero-initialised variables of the function.
+		g.top()[n] = &varInfo{T: f.Results[i], WO: true}
+	}
 	terminated := false
 	for g.budget > 0 || len(g.pending) > 0 {
 		st, term := g.stmt()
@@ -966,7 +1012,20 @@ func (g *gctx) function(f *Func, stmts int) {
 		}
 	}
 	if !terminated {
-		f.Body = append(f.Body, g.returnStmt())
+		if len(f.ResultNames) > 0 {
+			// Give every named result an input-dependent value (the
+			// caller treats helper results as dynamic), then a bare
+			// return.
+			for i, n := range f.ResultNames {
+				if g.chance(70, "assignnamed") || !g.lookup(n).Dyn || g.lookup(n).WO {
+					e, _ := g.expr(f.Results[i], true)
+					f.Body = append(f.Body, &Stmt{K: SAssign, Name: n, E: e})
+				}
+			}
+			f.Body = append(f.Body, &Stmt{K: SReturn})
+		} else {
+			f.Body = append(f.Body, g.returnStmt())
+		}
 	}
 	g.pop()
 	g.pop()
@@ -1034,6 +1093,11 @@ func Draw(t *rapid.T, o Opts) *Prog {
 		nres := g.intn(1, 2, "hresults")
 		for i := 0; i < nres; i++ {
 			f.Results = append(f.Results, g.scalarType())
+		}
+		if g.chance(25, "namedresults") {
+			for i := range f.Results {
+				f.ResultNames = append(f.ResultNames, fmt.Sprintf("r%d_%d", h, i))
+			}
 		}
 		g.function(f, g.intn(1, 4, "hstmts"))
 		g.prog.Funcs = append(g.prog.Funcs, f)
